@@ -5,23 +5,75 @@ import (
 	"fmt"
 	"os"
 	"path/filepath"
+	"strings"
 	"sync"
 	"time"
 
 	"reduction.dev/reduction/batching"
+	"reduction.dev/reduction/storage/snapshots"
+	"reduction.dev/reduction/util/vhook"
 	"verif/cluster"
 	"verif/lib"
 )
 
+// requestSavepoint: the job refuses savepoints unless it is Running (a user retries); after a restart the
+// harness therefore waits for Running first.
+func (x *run) requestSavepoint() (uint64, error) {
+	deadline := time.Now().Add(cluster.Watchdog)
+	for {
+		if x.cl.Job.VerifStatus() == "Running" {
+			id, err := x.cl.Job.HandleCreateSavepoint(context.Background())
+			if err == nil || !strings.Contains(err.Error(), "job not running") {
+				return id, err
+			}
+		}
+		if time.Now().After(deadline) {
+			x.c.Inconclusive("the job did not reach Running within the watchdog (status %s, job errors %v)", x.cl.Job.VerifStatus(), x.cl.JobErrors())
+		}
+		time.Sleep(200 * time.Microsecond)
+	}
+}
+
 // C14: savepoints are self-contained and restore the checkpointed job state (DESIGN §6 C14).
-func c14Savepoint(c *lib.Ctx) {
+func c14Savepoint(c *lib.Ctx) { c14Run(c, false) }
+
+// c14AfterScaleDown: the directed variant — state is flushed to table files, the job is scaled down so that one
+// operator inherits the tables of several former operators (equal file names in different directories), and the
+// savepoint is taken while those inherited tables are still referenced.
+func c14AfterScaleDown(c *lib.Ctx) { c14Run(c, true) }
+
+func c14Run(c *lib.Ctx, scaleDown bool) {
 	o := pickOpts(c.R)
 	if o.keyGroups == 65535 {
 		o.keyGroups = 256
 	}
 	o.perSplit = 40 + c.R.Intn(50)
 	o.timers = true
+	if scaleDown {
+		o.workers = 2 + c.R.Intn(3)
+		o.splits = max(o.splits, 2)
+	}
 	x := newRun(c, o)
+	// the end of every asynchronous publication of the job's snapshot store (hook): a savepoint whose publication
+	// has ended without an artifact is lost, one whose publication has not ended is merely slow
+	var pubMu sync.Mutex
+	pubEnded := map[uint64]error{}
+	ended := map[uint64]bool{}
+	vhook.Set(func(name string, arg any) {
+		if name == "snapshots.publication-ended" {
+			e := arg.(snapshots.VerifPublicationEnded)
+			pubMu.Lock()
+			pubEnded[e.ID], ended[e.ID] = e.Err, true
+			pubMu.Unlock()
+		}
+	})
+	defer vhook.Set(nil)
+	if scaleDown {
+		// every operator flushes several tables before the first checkpoint; few compactions, so that the inherited
+		// tables stay referenced for a while
+		x.tun.MemTableSize, x.tun.MaxWALSize, x.tun.TargetFileSize = 300, 600, 1<<20
+		x.tun.L0TableNumCompactionTrigger = 4
+	}
 	closed := false
 	defer func() {
 		if !closed {
@@ -42,6 +94,43 @@ func c14Savepoint(c *lib.Ctx) {
 	for i := r.Intn(3); i > 0; i-- {
 		x.checkpoint(10 * time.Second)
 	}
+	// sometimes the job was rescaled before: its operators then reference tables inherited from several former
+	// operators (other directories, table numbering restarts per database) when the savepoint is taken
+	if scaleDown || r.Intn(3) == 0 {
+		if scaleDown {
+			x.waitCaughtUp()
+		}
+		if x.checkpoint(10*time.Second) == nil {
+			c.Inconclusive("no checkpoint before the rescale (job errors %v)", x.cl.JobErrors())
+		}
+		n2 := 1 + r.Intn(4)
+		if o.workers > 1 && (scaleDown || r.Intn(3) > 0) {
+			n2 = 1 + r.Intn(o.workers-1) // scale down: one operator inherits from several
+		}
+		x.logf("rescale before the savepoint: every worker and the job are stopped, the job restarts with %d workers (was %d)", n2, o.workers)
+		for _, w := range x.cl.NotKilled() {
+			x.cl.Kill(w)
+		}
+		lib.GCSettle()
+		x.cl.Cfg.Workers = n2
+		o.workers, x.o.workers = n2, n2
+		pubMu.Lock()
+		pubEnded, ended = map[uint64]error{}, map[uint64]bool{} // the restarted job may use an id again that never completed
+		pubMu.Unlock()
+		if err := x.cl.StartJob(); err != nil {
+			c.Fail("job-restart-error", x.wit(), "jobs.New on the existing storage: %v", err)
+		}
+		for i := 0; i < n2; i++ {
+			x.cl.AddWorker()
+		}
+		x.waitAssigned(2)
+		p1 = min(o.perSplit, p1+2+r.Intn(10))
+		x.src.SetLimit(p1)
+		if r.Intn(2) == 0 {
+			x.waitCaughtUp()
+		}
+		c.Feat("savepoints_after_rescale", 1)
+	}
 	// the savepoint request, at a seeded moment relative to periodic checkpoints
 	mode := r.Intn(6)
 	var spID uint64
@@ -51,10 +140,10 @@ func c14Savepoint(c *lib.Ctx) {
 	case 0: // idle
 		x.waitCaughtUp()
 		x.logf("savepoint requested (idle)")
-		spID, err = x.cl.Job.HandleCreateSavepoint(context.Background())
+		spID, err = x.requestSavepoint()
 	case 1: // mid flow
 		x.logf("savepoint requested (mid flow)")
-		spID, err = x.cl.Job.HandleCreateSavepoint(context.Background())
+		spID, err = x.requestSavepoint()
 	case 4, 5: // the asynchronous publication of the savepoint's checkpoint overlaps the next periodic checkpoint
 		x.waitCaughtUp()
 		release := make(chan struct{})
@@ -81,12 +170,15 @@ func c14Savepoint(c *lib.Ctx) {
 				close(srRelease)
 			}
 		}()
-		spID, err = x.cl.Job.HandleCreateSavepoint(context.Background())
+		spID, err = x.requestSavepoint()
+		overtaken := mode == 5 // the next checkpoint completes at the job and is published before the savepoint's snapshot write returns
 		x.cl.Lock()
 		sp := spID
-		x.cl.HoldSRAck = func(a cluster.SRAck) {
-			if a.ID > sp {
-				<-srRelease
+		if !overtaken {
+			x.cl.HoldSRAck = func(a cluster.SRAck) {
+				if a.ID > sp {
+					<-srRelease
+				}
 			}
 		}
 		x.cl.Unlock()
@@ -110,9 +202,23 @@ func c14Savepoint(c *lib.Ctx) {
 							n++
 						}
 					}
-					if n >= o.workers {
+					if n >= o.workers && !overtaken {
 						c.Feat("savepoint_publication_overlapped_next_checkpoint", 1)
 						break
+					}
+					if overtaken {
+						// the next checkpoint completes at the job and is published while the savepoint's snapshot write is still in flight
+						done := false
+						for _, p := range x.cl.PublishedSnapshots() {
+							if sn, e2 := x.cl.ReadSnapshot(p); e2 == nil && sn.Id > spID {
+								done = true
+							}
+						}
+						if done {
+							x.logf("checkpoint after the savepoint's was published while the savepoint's snapshot write was in flight")
+							c.Feat("savepoint_overtaken_by_next_checkpoint", 1)
+							break
+						}
 					}
 					time.Sleep(300 * time.Microsecond)
 				}
@@ -154,7 +260,7 @@ func c14Savepoint(c *lib.Ctx) {
 		}
 		pendingStarts := x.cl.StartCheckpoints()[before:]
 		x.logf("savepoint requested while periodic checkpoint is in progress (acks held)")
-		spID, err = x.cl.Job.HandleCreateSavepoint(context.Background())
+		spID, err = x.requestSavepoint()
 		if mode == 3 && err == nil {
 			// a second request while the first is pending must not start anything either
 			x.logf("second savepoint request")
@@ -181,17 +287,27 @@ func c14Savepoint(c *lib.Ctx) {
 	_ = startsBefore
 	// the artifact appears
 	var spURI string
-	deadline := time.Now().Add(cluster.Watchdog)
-	for {
+	artifact := func() bool {
 		uri, e2 := x.cl.Job.HandleGetSavepointURI(context.Background(), spID)
 		if e2 == nil {
 			if _, e3 := os.Stat(uri); e3 == nil {
 				spURI = uri
-				break
+				return true
 			}
 		}
+		return false
+	}
+	// The publication of the savepoint's checkpoint runs asynchronously. Its end is observed through the hook:
+	// ended without an artifact = the request was lost (violation); not ended within the watchdog = inconclusive.
+	for deadline := time.Now().Add(cluster.Watchdog); !artifact(); {
+		pubMu.Lock()
+		done, perr := ended[spID], pubEnded[spID]
+		pubMu.Unlock()
+		if done && !artifact() {
+			c.Fail("savepoint-never-written", x.wit(), "savepoint %d was requested and its checkpoint acknowledged by every member; the asynchronous publication of checkpoint %d has ended (error: %v) and the savepoint artifact does not exist (job errors %v)", spID, spID, perr, x.cl.JobErrors())
+		}
 		if time.Now().After(deadline) {
-			c.Inconclusive("the savepoint artifact of checkpoint %d did not appear within the watchdog (job errors %v)", spID, x.cl.JobErrors())
+			c.Inconclusive("the publication of savepoint %d did not end within the watchdog (job errors %v)", spID, x.cl.JobErrors())
 		}
 		time.Sleep(300 * time.Microsecond)
 	}
@@ -234,6 +350,7 @@ func c14Savepoint(c *lib.Ctx) {
 	cfg.SavepointURI = spURI
 	cfg.Batch = batching.EventBatcherParams{MaxSize: o.maxSize, MaxDelay: o.maxDelay}
 	y.cl = cluster.New(cfg)
+	y.cl.ContinueNamesOf(x.cl)
 	y.cl.SetChecks(exactlyOnceCheck)
 	y.cl.TimerFn = x.cl.TimerFn
 	y.cuts = x.cuts
